@@ -75,7 +75,7 @@ func ruleC07_1(c *Ctx) {
 					inLoop := innermostLoop(loopsOf(sread), w.Instr.Block()) != nil
 					domAll := true
 					n := 0
-					allInstrs(sread, func(in ssa.Instruction) {
+					p.allInstrsDeep(sread, func(in ssa.Instruction) {
 						if call, ok := in.(*ssa.Call); ok {
 							if cal := call.Call.StaticCallee(); cal != nil && recvNamed(cal) != nil && recvNamed(cal).Obj().Name() == "SRespCodec" {
 								switch cal.Name() {
@@ -297,24 +297,22 @@ func ruleC07_3(c *Ctx) {
 					}
 				}
 			}
-			okAll := false
-			if loop != nil && !loop.Blocks[okBlock] {
-				// OK reachable only through the exhaustion edge of the loop header
-				okAll = true
-				for _, e := range loop.exitEdges() {
-					if e[0] != loop.Header && (e[1] == okBlock || reachableBlocks(e[1], nil)[okBlock]) {
+			okAll, okErr := false, false
+			if loop != nil && !loop.Blocks[okBlock] && loop.Header.Dominates(okBlock) {
+				// (a) +OK is reached from the loop only through its exhaustion edge: every feasible path from the
+				//     header to the +OK store leaves the loop at the header (flags such as allOk are followed)
+				paths, complete := feasiblePaths(loop.Header, func(b *ssa.BasicBlock) bool { return b == okBlock }, 400)
+				okAll = complete && len(paths) > 0
+				for _, pa := range paths {
+					if len(pa) > 1 && loop.Blocks[pa[1]] {
 						okAll = false
 					}
-				}
-				if !loop.Header.Dominates(okBlock) {
-					okAll = false
 				}
 			}
 			c.check(okAll, "SRespCodec.MSet: OK only if every fragment is Ok", firstPos(c, em[okBlock]), "the +OK store is reached only after the loop over all of Msg.Body ran to exhaustion",
 				"+OK is stored without having examined every fragment of the request: a node's failure is reported as success depending on iteration/arrival order")
-			okErr := false
 			if errBlock != nil && loop != nil {
-				// the !v.Ok edge of the per-fragment test leads straight to the error store: no further condition
+				// (b) from the !v.Ok edge of the per-fragment test every feasible way out stores the error reply and never +OK
 				for b := range loop.Blocks {
 					ifi, ok := b.Instrs[len(b.Instrs)-1].(*ssa.If)
 					if !ok {
@@ -323,8 +321,23 @@ func ruleC07_3(c *Ctx) {
 					if _, is := fieldLoad(ifi.Cond, okF); !is {
 						continue
 					}
-					if b.Succs[1] == errBlock && len(errBlock.Preds) == 1 {
-						okErr = true
+					bad := b.Succs[1]
+					isRet := func(x *ssa.BasicBlock) bool { _, r := x.Instrs[len(x.Instrs)-1].(*ssa.Return); return r }
+					paths, complete := feasiblePathsVia(b, bad, isRet, 400)
+					okErr = complete && len(paths) > 0
+					for _, pa := range paths {
+						sawErr, sawOK := false, false
+						for _, x := range pa {
+							if x == errBlock {
+								sawErr = true
+							}
+							if x == okBlock {
+								sawOK = true
+							}
+						}
+						if !sawErr || sawOK {
+							okErr = false
+						}
 					}
 				}
 			}
@@ -443,6 +456,9 @@ func ruleC07_4(c *Ctx) {
 		}
 	}
 	if inner == nil {
+		if c.mgetSearchHelperForm(fn, outer, em, frags, body, rspF, hash) {
+			return
+		}
 		c.bad("SRespCodec.MGet: position of the key in its slot group", p.pos(fn.Pos()), "no search of key k in msg.Frags[Hash(k)] was found inside the loop over the keys")
 		return
 	}
@@ -493,4 +509,162 @@ func ruleC07_4(c *Ctx) {
 	// once per key: after the append control leaves the inner loop
 	again := reachableBlocks(appBlock, func(b *ssa.BasicBlock) bool { return b == outer.loop.Header })[inner.loop.Header]
 	c.check(!again, "SRespCodec.MGet: one element per key", c.at(app.at), "the search stops at the first match", "after appending the element the search over the slot group continues: a key that occurs twice in the request contributes too many elements")
+}
+
+// indexSearch recognises a helper `func(coll []T, key T) int` that returns the first index i with coll[i] == key
+// and a negative constant when there is none; returns the parameter positions of coll and key.
+func (p *Prog) indexSearch(h *ssa.Function) (collIdx, keyIdx int, ok bool) {
+	if h == nil || !p.isHelper(h) || h.Signature.Results().Len() != 1 {
+		return 0, 0, false
+	}
+	if b, isB := h.Signature.Results().At(0).Type().Underlying().(*types.Basic); !isB || b.Info()&types.IsInteger == 0 {
+		return 0, 0, false
+	}
+	saved := map[*ssa.Parameter]ssa.Value{}
+	for _, prm := range h.Params {
+		if v, had := paramBind[prm]; had {
+			saved[prm] = v
+			delete(paramBind, prm)
+		}
+	}
+	defer func() {
+		for k, v := range saved {
+			paramBind[k] = v
+		}
+	}()
+	var loop *sliceLoop
+	sls := rangeIndexLoops(h)
+	for i := range sls {
+		if prm, isP := strip(sls[i].coll).(*ssa.Parameter); isP && prm.Parent() == h {
+			loop = &sls[i]
+		}
+	}
+	if loop == nil {
+		return 0, 0, false
+	}
+	collIdx, keyIdx = -1, -1
+	for i, prm := range h.Params {
+		if ssa.Value(prm) == strip(loop.coll) {
+			collIdx = i
+		}
+	}
+	found, miss := false, false
+	for _, r := range returnsReachable(h) {
+		rv := strip(results(r.(*ssa.Return))[0])
+		if n, isK := constInt(rv); isK {
+			// the "not found" result: a negative constant returned once the loop is exhausted
+			if n >= 0 || loop.loop.Blocks[r.Block()] || len(r.Block().Preds) != 1 || r.Block().Preds[0] != loop.loop.Header {
+				return 0, 0, false
+			}
+			miss = true
+			continue
+		}
+		// (a block that returns is not part of the natural loop; it is entered from the loop body under the equality guard)
+		if rv != strip(loop.index) || !loop.loop.Header.Dominates(r.Block()) {
+			return 0, 0, false
+		}
+		okG := false
+		for _, g := range guardsAt(r.Block()) {
+			x, op, y, isC := cmpGuard(g)
+			if !isC || op != token.EQL {
+				continue
+			}
+			if loop.isElem(y) {
+				x, y = y, x
+			}
+			if loop.isElem(x) {
+				for i, prm := range h.Params {
+					if ssa.Value(prm) == strip(y) {
+						keyIdx, okG = i, true
+					}
+				}
+			}
+		}
+		if !okG {
+			return 0, 0, false
+		}
+		found = true
+	}
+	return collIdx, keyIdx, found && miss && collIdx >= 0 && keyIdx >= 0
+}
+
+// mgetSearchHelperForm: `if i := firstIndex(msg.Frags[Hash(k)], k); i >= 0 { append(…, msg.Body[Hash(k)].Rsp[i]...) }`.
+func (c *Ctx) mgetSearchHelperForm(fn *ssa.Function, outer *sliceLoop, em map[*ssa.BasicBlock][]token_, frags, body, rspF *types.Var, hash *ssa.Function) bool {
+	p := c.P
+	var idx *ssa.Call
+	var k ssa.Value
+	allInstrs(fn, func(in ssa.Instruction) {
+		call, ok := in.(*ssa.Call)
+		if !ok || !outer.loop.Blocks[call.Block()] {
+			return
+		}
+		h := call.Call.StaticCallee()
+		ci, ki, ok := p.indexSearch(h)
+		if !ok {
+			return
+		}
+		lk, ok := strip(call.Call.Args[ci]).(*ssa.Lookup)
+		if !ok {
+			return
+		}
+		if _, is := fieldLoad(lk.X, frags); !is {
+			return
+		}
+		if hc, ok := p.isCallTo(strip(lk.Index), hash); ok && outer.isElem(hc.Call.Args[0]) && strip(call.Call.Args[ki]) == strip(hc.Call.Args[0]) {
+			idx, k = call, hc.Call.Args[0]
+		}
+	})
+	if idx == nil {
+		return false
+	}
+	c.touch(idx.Call.StaticCallee())
+	var app token_
+	n := 0
+	var appBlock *ssa.BasicBlock
+	for b, ts := range em {
+		if outer.loop.Blocks[b] && b != outer.loop.Header {
+			for _, t := range ts {
+				app, appBlock = t, b
+				n++
+			}
+		}
+	}
+	if n != 1 {
+		c.bad("SRespCodec.MGet: one element per key", p.pos(fn.Pos()), fmt.Sprintf("%d appends to the reply inside the loop over the keys", n))
+		return true
+	}
+	okV := false
+	if ld, ok := strip(app.v).(*ssa.UnOp); ok {
+		if ia, ok := ld.X.(*ssa.IndexAddr); ok && strip(ia.Index) == ssa.Value(idx) {
+			if fr, ok := fieldLoad(ia.X, rspF); ok {
+				if lk, ok := strip(fr).(*ssa.Lookup); ok {
+					if _, is := fieldLoad(lk.X, body); is {
+						if hc, ok := p.isCallTo(strip(lk.Index), hash); ok && strip(hc.Call.Args[0]) == strip(k) {
+							okV = true
+						}
+					}
+				}
+			}
+		}
+	}
+	c.check(okV, "SRespCodec.MGet: element for key k", c.at(app.at), "msg.Body[Hash(k)].Rsp[i], i = position of k in msg.Frags[Hash(k)] (search helper)",
+		"the element appended for a key is "+app.text+", not the answer at the key's own position in its slot's fragment: keys of one slot get each other's values")
+	gs := guardsAt(appBlock)
+	okG := guardHas(gs, func(g Guard) bool {
+		x, op, y, ok := cmpGuard(g)
+		if !ok || strip(x) != ssa.Value(idx) {
+			return false
+		}
+		n, isK := constInt(y)
+		return isK && ((op == token.GEQ && n == 0) || (op == token.GTR && n == -1) || (op == token.NEQ && n == -1))
+	})
+	c.check(okG, "SRespCodec.MGet: position found by key equality", c.at(app.at), "on i >= 0 of the first-index search by equality", "the position in the slot group is not selected by equality with the key", withGuards(gs))
+	inOther := false
+	for _, l := range loopsOf(fn) {
+		if l.Header != outer.loop.Header && l.Blocks[appBlock] && outer.loop.Blocks[l.Header] {
+			inOther = true
+		}
+	}
+	c.check(!inOther, "SRespCodec.MGet: one element per key", c.at(app.at), "one append per key", "the element is appended inside a further loop: a key contributes too many elements")
+	return true
 }
